@@ -372,6 +372,25 @@ class Ctx:
         return 1 if viol else 0
 
 
+def profile_runs(ctx, pkg, stim_files, replay=None, keep_quick=1500):
+    """Both build profiles of a harness: yields (name, profile, binary, stimuli file).  The debug build runs
+    everything; the release build (debug assertions off, optimised: `debug_assert!`-only checks, cfg!(debug_assertions)
+    branches and overflow behaviour differ) runs a replay as it is, the random stimuli in full and the TLC-enumerated
+    ones thinned to ~keep_quick executions in the quick tier.  C07's quick tier (ctx.light: heap watch over every
+    family) stays with the debug build."""
+    hx = ctx.cargo_build(pkg)
+    bins = [("debug", hx)]
+    if not getattr(ctx, "light", 0):
+        bins.append(("release", ctx.cargo_build(pkg, release=True)))
+    for item in stim_files:
+        name, sf = item[0], item[1]
+        for prof, b in bins:
+            f = sf
+            if prof == "release" and not replay and ctx.tier == "quick":
+                f = thin_stimuli(sf, keep_quick)
+            yield name, prof, b, f
+
+
 def thin_stimuli(path, keep):
     """C07's quick tier re-runs every family only to watch the heap counters: a stimuli file with more than
     `keep` executions (one per line) is thinned to an evenly spaced subset of about that size.  Files in the
